@@ -210,7 +210,9 @@ pub fn response_overhead(token_len: usize, opts: &[(u16, Vec<Vec<u8>>)], with_bl
 
 /// Budget drawn relative to an overhead so that the interesting region is hit.
 pub fn gen_budget(ch: &mut Ch, ov: usize) -> usize {
-    match ch.weighted(&[30, 25, 20, 15, 10, 5, 6], "budget.mode") {
+    match ch.weighted(&[30, 25, 20, 15, 10, 5, 6, 4], "budget.mode") {
+        // far above any datagram (a server that leaves fragmentation to lower layers)
+        7 => *ch.pick(&[2048usize, 4096, 4200, 8192, 64_000, 65_535, 1 << 20], "budget.large"),
         0 => 1152,
         1 => ov + 28 + ch.below(121, "budget.dense") as usize,
         2 => {
